@@ -1,0 +1,20 @@
+//go:build verif
+
+package ptt
+
+import "github.com/Ptt-official-app/go-pttbbs/ptttype"
+
+// Verification hooks (add-only, compiled only with -tags verif): the unexported pieces of the
+// write-authorisation rule set.
+
+func VerifCheckCooldown(user *ptttype.UserecRaw, uid ptttype.UID, board *ptttype.BoardHeaderRaw, bid ptttype.Bid) (bool, error) {
+	return checkCooldown(user, uid, board, bid)
+}
+
+func VerifIsFileOwner(fhdr *ptttype.FileHeaderRaw, user *ptttype.UserecRaw) bool {
+	return isFileOwner(fhdr, user)
+}
+
+func VerifGetRestrictionReason(numLoginDays uint32, badPost uint8, postLimitLogins uint8, postLimitBadpost uint8) (ptttype.RestrictReason, error) {
+	return getRestrictionReason(numLoginDays, badPost, postLimitLogins, postLimitBadpost)
+}
